@@ -50,7 +50,7 @@ func init() {
 	metas["C13"] = Meta{Rule: metas["C13"].Rule, Assumptions: metas["C13"].Assumptions, ExhaustivePart: "every (n,size) with n 0..64, size 1..70"}
 	metas["C14"] = Meta{Rule: metas["C14"].Rule, Assumptions: metas["C14"].Assumptions, ExhaustivePart: "all slices over a 3-letter alphabet up to length 6"}
 	metas["C15"] = Meta{Rule: metas["C15"].Rule, Assumptions: metas["C15"].Assumptions, ExhaustivePart: "all slices over {0,1,2} up to length 7"}
-	metas["C08"] = Meta{Rule: metas["C08"].Rule, Assumptions: metas["C08"].Assumptions, ExhaustivePart: "all shapes 0..6 x 0..6 (the per-shape script samples rectangles and spans)"}
+	metas["C08"] = Meta{Rule: metas["C08"].Rule, Assumptions: metas["C08"].Assumptions, ExhaustivePart: "all shapes 0..6 x 0..6; per shape every Fill rectangle (all four corners in every order) and every RowSpan with x1 <= x2; the rest of the per-shape script samples"}
 	meta("C03", "case i = one PRNG-generated scenario: element type (int/string/struct), universe size 1..8, implementation pairing (maps|sync2 x maps|sync2), two construction histories of 0..40 calls each (constructors with duplicates, Add, Remove, Has, Len/Slice, Clone-and-swap), then the four binary operations in both directions (10%: argument is the receiver itself), two AddSet/RemoveSet calls and CartesianProduct; NON-TRIVIAL = A and B not both empty at the end; distinctness = hash of the full call sequence")
 	meta("C06", "even case = List scenario: 2..3 lists (zero value or New), 1..120 calls with element arguments from every handle ever issued (live here / live elsewhere / removed / never inserted); odd case = Ring scenario: 1..3 initial rings (NewRing(-1..7) or zero value), 1..80 calls; NON-TRIVIAL = List: a call received a non-member element or a list was pushed onto itself; Ring: at least one Link or Unlink; distinctness = hash of the call sequence")
 	meta("C04", "seq: case = 1..300 sequential calls over 1..6 keys (+misses on absent keys); tierb: case = random sequential prefix of 0..12 calls, then 2..4 workers x 1..6 calls over 1..3 keys under one seeded serialized schedule (strategy uniform/sticky/PCT); lin: case = prefix, then 2..8 goroutines x 20..120 calls or 9..16 x 5..30 over 1..4 keys, free-running with a random yield policy; race: 2..64 goroutines x 10..150 calls, unrecorded; NON-TRIVIAL = seq: >= 5 calls; tierb: the schedule has >= 1 worker switch between hook sites; lin: >= 1 pair of calls by different clients overlaps in time; race: always; distinctness = schedule hash (tierb) / history hash (seq, lin) / case parameters (race)",
@@ -96,6 +96,11 @@ func init() {
 	for prop, text := range map[string]string{
 		"C01": "all histories of <= 5 calls over {Add 0/1/2, Remove 0/1/2, Clear, Clone-and-continue, walks} from a fresh tree (66 429 histories per run)",
 		"C07": "all histories of <= 5 calls over {Add 0/1/2, Remove 0/1/2, RemoveAt(0), RemoveAt(Len-1)} after NewSorted over 8 tiny inputs (299 592 histories per run)",
+		"C03": "all call sequences of length <= 6 over {Add 0/1, Remove 0/1, Has 0/1, Len+Slice, Clone-and-continue} on a fresh set of each implementation (599 184 sequences per run)",
+		"C04": "seq: all call sequences of length <= 6 over {Load/Store/LoadOrStore/delete k0, Load/Store/delete k1, Range} on a fresh Map (299 592 sequences per run)",
+		"C06": "all sequences of <= 5 calls over a 10-call alphabet (pushes, removals, moves, inserts relative to the oldest and newest handle, live or removed) on a zero-value list, in lock-step with container/list (111 110 sequences per run)",
+		"C09": "free/plain cases 0..17: all sequential call sequences of length <= 6 (KeyedMutex, 8 calls over 2 keys) / <= 5 (KeyedRWMutex, 10 calls) from a fresh value, every Try result judged",
+		"C10": "stable/plain cases 0..7: all sequential call sequences of length <= 5 over {SubBuf, Unsub oldest/newest/removed, UnsubAll, PubSync, PubSliceSync, PubWait} on a fresh PubSub with buffered subscriptions (37 449 sequences per run)",
 		"C16": "all call sequences of length <= 10 over {insert, remove, Peek+Len} from the zero value, for Queue and Stack",
 	} {
 		mm := metas[prop]
